@@ -25,6 +25,15 @@ type TraceStep struct {
 	Stmt string `json:"stmt"` // file:line:col of the enclosing statement of the visible op
 	Op   string `json:"op"`
 	Pos  string `json:"pos,omitempty"` // file:line of the visible operation itself
+	Step int    `json:"step"`          // global step number of the model
+}
+
+// EnvCancel: the environment cancels the context armed by the Occ-th vrt.CancelAnytime call of
+// thread Owner, at (the beginning of) model step Step.
+type EnvCancel struct {
+	Step  int `json:"step"`
+	Owner int `json:"owner"`
+	Occ   int `json:"occ"`
 }
 type Trace struct {
 	Harness   string         `json:"harness"`
@@ -34,7 +43,8 @@ type Trace struct {
 	Final     map[int]string `json:"final"` // where each unfinished thread is parked at the end of the trace
 	// Inputs: values of the harness's nondeterministic inputs and of the model's internal choices,
 	// keyed by the engine's variable name (nd!<name>!<site>, sel!..., env!...)
-	Inputs map[string][]int64 `json:"inputs,omitempty"`
+	Inputs     map[string][]int64 `json:"inputs,omitempty"`
+	EnvCancels []EnvCancel        `json:"env_cancels,omitempty"`
 }
 
 type thr struct {
@@ -365,6 +375,7 @@ func Run(tracePath string, entry func()) Result {
 		t.future = future
 		t.curStmt = st.Stmt
 		t.parkedAt = ""
+		fireEnv(st.Step)
 		logf("step %d: grant T%d at %s (next stop %s)", k, st.Th, st.Stmt, next)
 		t.wake <- struct{}{}
 		select {
@@ -467,6 +478,57 @@ func Input(name, suffix string) (int64, bool) {
 		return v[0], true
 	}
 	return 0, false
+}
+
+type envReg struct {
+	owner, occ int
+	fn         func()
+	fired      bool
+}
+
+var envRegs []*envReg
+var envOcc = map[int]int{}
+
+// RegisterEnvCancel is the native vrt.CancelAnytime: the controller calls fn when the trace says
+// the environment cancels.
+func RegisterEnvCancel(fn func()) {
+	if !active {
+		return
+	}
+	id := 0
+	if t := self(); t != nil {
+		id = t.id
+	}
+	mu.Lock()
+	envRegs = append(envRegs, &envReg{owner: id, occ: envOcc[id], fn: fn})
+	envOcc[id]++
+	mu.Unlock()
+}
+
+func fireEnv(step int) {
+	if trace == nil {
+		return
+	}
+	for _, ec := range trace.EnvCancels {
+		if ec.Step > step {
+			continue
+		}
+		mu.Lock()
+		var hit *envReg
+		for _, r := range envRegs {
+			if r.owner == ec.Owner && r.occ == ec.Occ && !r.fired {
+				hit = r
+			}
+		}
+		if hit != nil {
+			hit.fired = true
+		}
+		mu.Unlock()
+		if hit != nil {
+			logf("environment cancels the context armed by T%d (#%d) at model step %d", ec.Owner, ec.Occ, ec.Step)
+			hit.fn()
+		}
+	}
 }
 
 // Active reports whether a replay is in progress.
